@@ -60,6 +60,11 @@ REVERTS = [
      "        stamps = data.values.astype('M8[ns]').view('int64')\n", "        stamps = data.values.view('int64')\n"),
     ('revert-F14-nat-not-restored', ['C01'], 'fastparquet/writer.py',
      "            if factor != 1:\n                # scaling must not move the NaT sentinel\n                out[values == nat] = nat\n", ""),
+    ('revert-F15-whole-mask-per-page', ['C01', 'C03'], 'fastparquet/core.py',
+     "            defi = assign._mask[num:num+data_header2.num_values]\n", "            defi = assign._mask\n"),
+    ('revert-F16-buffer-sliced-directly', ['C01', 'C03'], 'fastparquet/core.py',
+     "        raw_bytes = np.frombuffer(decompress_data(raw_bytes, uncompressed_page_size, codec), dtype='uint8')\n",
+     "        raw_bytes = decompress_data(raw_bytes, uncompressed_page_size, codec)\n"),
 ]
 
 # functions whose twins are run per property (module, qualname)
